@@ -588,6 +588,10 @@ class D07(Extra):
             p = [[0, rng.randint(1, 4)], [d, -rng.randint(1, 4)], [d + w, rng.randint(1, 4)], [end, 1]]
             q = [[0, -rng.randint(1, 3)], [r, rng.randint(1, 4)], [r + 2, -rng.randint(1, 3)], [end, -1]]
             if rng.random() < 0.5:
+                # ... and the right operand also holds once early, before t+a, while the left one still holds: the untimed until holds at t,
+                # the bounded one does not (seeded change C07_A5: G[0,a] applied to the left operand instead of to the untimed until)
+                q = [[0, rng.randint(1, 4)], [rng.choice([1, 2]), -rng.randint(1, 3)]] + q[1:]
+            if rng.random() < 0.5:
                 out.append({'f': ('untilt', a, b, X, Y), 'nv': 2, 'sigs': [p, q], 'n': 0})
             else:
                 # mirrored in time around `end`
